@@ -1,6 +1,8 @@
 (* C15 — property theorems only.  Bodies live in Proofs.v. *)
 From Coq Require Import PArith ZArith List Bool.
-From EsVerif.C15 Require Import Model Spec Proofs Complete Alias Exec ExecProofs.
+From EsVerif.C15 Require Import Model Spec Proofs Complete Alias NoWrite Sequence Refine Mono Verdict Exec ExecProofs.
+From EsVerif.Common Require Import Bytes.
+From Coq.Strings Require Import Byte.
 Import ListNotations.
 
 (* Soundness of the frame checker: if the verified analysis accepts a skeleton for the parameter
@@ -119,3 +121,147 @@ Proof.
       apply XNil.
     - intro H. specialize (H 1%positive 0%nat (or_introl eq_refl) eq_refl). simpl in H. discriminate. }
 Qed.
+
+(* ------------------------------------------------------------------------------------------------------------------
+   Theorems added in the proof-deepening round
+   ------------------------------------------------------------------------------------------------------------------ *)
+
+(* NO WRITE ATTEMPT.  Instrumented semantics (NoWrite.execw): every execution carries the log of the buffers it wrote to.  An
+   accepted skeleton never performs a write that TARGETS a parameter's buffer -- not one that stores the value already there, not
+   one that a later write undoes (two byte swaps that cancel).  Stronger than "unchanged at the end"; it is what the read-only
+   form of the dynamic run observes (numpy refuses such a write). *)
+Theorem C15_no_write_attempt : forall sk ps,
+  frame_ok sk ps = true ->
+  forall st st' w, params_bound ps st -> others_apart ps st ->
+  execw sk st st' w ->
+  forall p b, In p ps -> env st p = Some b -> ~ In b w.
+Proof. exact frame_ok_no_write_attempt. Qed.
+
+(* the log is an annotation of the plain semantics (same executions) ... *)
+Theorem C15_write_log_total : forall sk st st', (exists w, execw sk st st' w) <-> exec sk st st'.
+Proof. exact execw_exec. Qed.
+
+(* ... and it is faithful: an existing buffer outside the log keeps its contents, existing buffers stay allocated *)
+Theorem C15_write_log_faithful : forall l st st' h w, execw_l l st st' h w -> keeps st st' w.
+Proof. exact execw_keeps_l. Qed.
+
+(* CALL SEQUENCES (what a `<driver>#seq` obligation proves).  If the concatenation of two call skeletons is accepted for the
+   union of their parameter sets, then after the first call has completed -- leaving ANY state: module-level containers, object
+   fields, references it kept -- the second call (possibly cut short) leaves the arguments of BOTH calls unchanged ... *)
+Theorem C15_sequence_sound : forall sk1 sk2 ps1 ps2,
+  frame_ok (sk1 ++ sk2) (ps1 ++ ps2) = true ->
+  forall st st1 st2, params_bound (ps1 ++ ps2) st -> others_apart (ps1 ++ ps2) st ->
+  exec_l sk1 st st1 false -> exec sk2 st1 st2 ->
+  params_unchanged ps1 st st1 /\ params_unchanged (ps1 ++ ps2) st st2.
+Proof. exact sequence_sound. Qed.
+
+(* ... and neither call ever attempts a write into any of them *)
+Theorem C15_sequence_no_write_attempt : forall sk1 sk2 ps1 ps2,
+  frame_ok (sk1 ++ sk2) (ps1 ++ ps2) = true ->
+  forall st st1 st2 w1 w2, params_bound (ps1 ++ ps2) st -> others_apart (ps1 ++ ps2) st ->
+  execw_l sk1 st st1 false w1 -> execw sk2 st1 st2 w2 ->
+  forall p b, In p (ps1 ++ ps2) -> env st p = Some b -> ~ In b w1 /\ ~ In b w2.
+Proof. exact sequence_no_write_attempt. Qed.
+
+(* the obligation of a sequence contains the obligation of its first call *)
+Theorem C15_frame_ok_prefix : forall sk1 sk2 ps, frame_ok (sk1 ++ sk2) ps = true -> frame_ok sk1 ps = true.
+Proof. exact frame_ok_prefix. Qed.
+
+(* HISTORY IS IRRELEVANT for the verdict on one call: whatever ran before (ANY skeleton, accepted or not), if in the state it
+   left the call's own arguments are bound and no other name refers to their buffers, the accepted call leaves them alone *)
+Theorem C15_history_irrelevant : forall sk0 sk ps,
+  frame_ok sk ps = true ->
+  forall st0 st st', exec sk0 st0 st ->
+  params_bound ps st -> others_apart ps st ->
+  exec sk st st' -> params_unchanged ps st st'.
+Proof. exact history_irrelevant. Qed.
+
+(* OVER-APPROXIMATION.  [refines l' l]: l' is more specific than l (an `if` resolved to a branch, a loop unrolled or not entered,
+   a may-alias set narrowed or replaced by "fresh").  Every execution of the more specific skeleton is an execution of the less
+   specific one ... *)
+Theorem C15_simulation : forall l' l, refines l' l -> forall st st' h, exec_l l' st st' h -> exec_l l st st' h.
+Proof. exact simulation. Qed.
+
+(* ... so an obligation discharged for the extracted skeleton holds for everything it over-approximates: the trust placed in the
+   extractor is exactly "the real call's effect skeleton refines the extracted one" *)
+Theorem C15_refinement_sound : forall sk' sk ps,
+  refines sk' sk -> frame_ok sk ps = true ->
+  forall st st', params_bound ps st -> others_apart ps st ->
+  exec sk' st st' -> params_unchanged ps st st'.
+Proof. exact refinement_sound. Qed.
+
+(* the checker itself is monotone under refinement (up to fuel): soundness + simulation + exactness *)
+Theorem C15_frame_ok_monotone : forall sk' sk ps,
+  refines sk' sk -> frame_ok sk ps = true ->
+  analyze_r default_fuel sk' (init_amap ps) <> AFuel ->
+  frame_ok sk' ps = true.
+Proof. exact frame_ok_monotone. Qed.
+
+(* THE VERDICT, EXACTLY (Verdict.verdict_spec is what the generated cases evaluate, on decoded snapshots; ExecProofs.v_case_spec).
+   0 <-> no refused write into a read-only argument, every observed argument unchanged, and (when the model predicts) the real
+   return value shares memory only with predicted parameters;  >= 2 <-> a refused write or a changed argument;  1 <-> nothing
+   modified but sharing outside the prediction *)
+Theorem C15_verdict_zero_exact : forall ro ok pred obs args,
+  verdict_spec ro ok pred obs args = 0%Z <-> ro = false /\ all_unchanged args /\ (ok = true -> incl obs pred).
+Proof. exact verdict_spec_zero. Qed.
+
+Theorem C15_verdict_failing_exact : forall ro ok pred obs args,
+  (2 <= verdict_spec ro ok pred obs args)%Z <-> ro = true \/ ~ all_unchanged args.
+Proof. exact verdict_spec_failing. Qed.
+
+Theorem C15_verdict_one_exact : forall ro ok pred obs args,
+  verdict_spec ro ok pred obs args = 1%Z <-> ro = false /\ all_unchanged args /\ ok = true /\ ~ incl obs pred.
+Proof. exact verdict_spec_one. Qed.
+
+(* ---- non-vacuity of the new statements ---------------------------------------------------------------------------- *)
+(* the accepted skeleton has a logged execution whose log is exactly the fresh buffer it wrote (so logs are not empty by
+   construction), and the parameter's buffer 0 is not in it *)
+Example C15_log_nonvacuous :
+  exists st', execw ex_copy ex_state st' [1%nat] /\ ~ In 0%nat [1%nat].
+Proof.
+  eexists. split.
+  - exists false. unfold ex_copy.
+    change [1%nat] with ([] ++ [] ++ [1%nat] ++ @nil nat).
+    eapply WCons. { eapply WBindAlias with (y := 1%positive) (b := 0%nat); [left; reflexivity | reflexivity]. }
+    eapply WCons. { eapply WBindFresh with (b := 1%nat) (v := 0%nat). vm_compute. intros [H|[]]. discriminate H. }
+    eapply WCons. { eapply WWrite with (b := 1%nat) (v := 9%nat). reflexivity. }
+    apply WNil.
+  - intros [H|[]]. discriminate H.
+Qed.
+
+(* a sequence obligation is strictly stronger than the two single-call obligations: the first call stores its argument in a
+   module-level name (10), the second writes through that name.  Each call alone is accepted; the sequence is rejected; and a
+   sequence in which the second call only writes fresh memory is accepted. *)
+Definition seq_keep : skeleton := [SBind 10 (MayAlias [1])]%positive.          (* g := a *)
+Definition seq_bad2 : skeleton := [SBind 11 (MayAlias [2]); SWrite 10]%positive.    (* v := b ; write through g *)
+Definition seq_good2 : skeleton := [SBind 11 (MayAlias [2]); SBind 12 Fresh; SWrite 12]%positive.
+Example C15_sequence_nonvacuous :
+  frame_ok seq_keep [1%positive] = true /\ frame_ok seq_bad2 [2%positive] = true
+  /\ frame_ok (seq_keep ++ seq_bad2) [1%positive; 2%positive] = false
+  /\ frame_ok (seq_keep ++ seq_good2) ([1%positive] ++ [2%positive]) = true.
+Proof. repeat split; reflexivity. Qed.
+
+(* refinement: the extracted skeleton keeps both branches of an option and a loop; the specific one took the second branch and ran
+   the loop once.  The general one is accepted, the specific one refines it. *)
+Definition gen_sk : skeleton :=
+  [SBind 2 (MayAlias [1; 5]); SIf [SBind 3 Fresh] [SBind 3 Fresh; SWrite 3]; SLoop [SWrite 3]]%positive.
+Definition spec_sk : skeleton := [SBind 2 (MayAlias [1]); SBind 3 Fresh; SWrite 3; SWrite 3]%positive.
+Example C15_refinement_nonvacuous : frame_ok gen_sk [1%positive] = true /\ refines spec_sk gen_sk.
+Proof.
+  split; [reflexivity|]. unfold spec_sk, gen_sk.
+  apply RCons. { apply RBindSub. intros y [<-|[]]. left; reflexivity. }
+  change [SBind 3%positive Fresh; SWrite 3%positive; SWrite 3%positive]
+    with ([SBind 3%positive Fresh; SWrite 3%positive] ++ [SWrite 3%positive]).
+  apply RIfR. { apply refines_refl. }
+  change [SWrite 3%positive] with ([SWrite 3%positive] ++ []).
+  apply RLoopUnroll. { apply refines_refl. }
+  apply RLoopSkip. apply RNil.
+Qed.
+
+(* the verdict table on concrete snapshots *)
+Example C15_verdict_nonvacuous :
+  let a := ([x01; x02], [x61]) in let b := ([x01; x03], [x61]) in
+  verdict_spec false true [1%Z] [1%Z] [(a, a)] = 0%Z /\ verdict_spec false true [] [1%Z] [(a, a)] = 1%Z
+  /\ verdict_spec false false [] [] [(a, b)] = 2%Z /\ verdict_spec false true [] [] [(a, b)] = 3%Z
+  /\ verdict_spec true true [] [] [(a, a)] = 3%Z.
+Proof. vm_compute. repeat split; reflexivity. Qed.
